@@ -1,7 +1,7 @@
 """C02 - content header + Basic.Properties survive encode -> decode, and
 re-encoding the decoded header reproduces the original bytes."""
 from .. import canon, diff, refcodec, refspec
-from ..gen import frames as gf
+from ..gen import frames as gf, values as gv
 from ..mon import boundary
 from . import common
 from .common import call
@@ -42,6 +42,44 @@ def cases(shard, rnd):
                        'size': gf.rbody_size(rnd), 'ch': gf.rchannel(rnd)}
         for size in gf.BODY_SIZES:
             yield {'mask': 0, 'props': {}, 'size': size, 'ch': 7}
+    # live dictionary: constants of the tree under test as property values,
+    # body sizes, channels; alone and beside a random other property set
+    from ..gen import magic
+    mp = magic.pool()
+    sweep = []
+    for i, (n, t) in enumerate(refspec.PROPERTIES[:13]):
+        if n == 'delivery_mode':
+            continue
+        if t == 'shortstr':
+            vals = [m for m in mp.strs
+                    if m != '' and len(m.encode('utf-8')) <= 255]
+        elif t == 'octet':
+            vals = mp.ints_in(0, 255)
+        elif t == 'timestamp':
+            vals = [gv.rdatetime(rnd, c) for c in mp.ints_in(0, 2**32 - 1)]
+        elif t == 'table':
+            vals = [{m[:128]: m} for m in mp.strs] + \
+                [{'k': c} for c in mp.ints_in(-2**63, 2**63 - 1)]
+        else:
+            vals = []
+        for v in vals:
+            sweep.append((i, n, v))
+    for j, (i, n, v) in enumerate(sweep):
+        if j % shard['n'] != shard['i']:
+            continue
+        mask = 1 << i
+        props = {n: v}
+        if j % 3 == 0:
+            mask = rnd.getrandbits(13) | 1 << i
+            props = gf.props_for_mask(rnd, mask)
+            props[n] = v
+        yield {'mask': mask, 'props': props, 'size': gf.rbody_size(rnd),
+               'ch': gf.rchannel(rnd), 'why': 'magic'}
+    for j, c in enumerate(mp.ints_in(0, 2**64 - 1)):
+        if j % shard['n'] == shard['i']:
+            yield {'mask': 0, 'props': {}, 'size': c, 'ch': gf.rchannel(rnd)}
+            yield {'mask': 2, 'props': {'content_encoding': 'x'},
+                   'size': rnd.getrandbits(40), 'ch': c % 65536}
 
 
 def expected_props(props):
